@@ -166,6 +166,7 @@ class PathCtx:
         self.imprecise = False     # set when a havoc / over-approximation happened
         self.nofork = 0            # >0: speculative (merge) mode, forks not allowed
         self.ghost = {}
+        self.soft = []             # preferences for small counter-models (never part of a proof)
 
     # -- fresh symbols ---------------------------------------------------
     def fresh_name(self, hint):
@@ -333,6 +334,45 @@ def _runs(mask):
     return runs
 
 
+def bounds(t, depth=0):
+    """cheap syntactic interval (lo, hi) of an int term; None components when unknown"""
+    if isinstance(t, int):
+        return t, t
+    if depth > 80:
+        return None, None
+    if z3.is_int_value(t):
+        v = t.as_long()
+        return v, v
+    k = t.decl().kind() if z3.is_app(t) else None
+    if k == z3.Z3_OP_ITE:
+        a, b = bounds(t.arg(1), depth + 1), bounds(t.arg(2), depth + 1)
+        lo = None if a[0] is None or b[0] is None else min(a[0], b[0])
+        hi = None if a[1] is None or b[1] is None else max(a[1], b[1])
+        return lo, hi
+    if k == z3.Z3_OP_ADD:
+        lo = hi = 0
+        for i in range(t.num_args()):
+            a = bounds(t.arg(i), depth + 1)
+            lo = None if lo is None or a[0] is None else lo + a[0]
+            hi = None if hi is None or a[1] is None else hi + a[1]
+        return lo, hi
+    if k == z3.Z3_OP_MOD and z3.is_int_value(t.arg(1)) and t.arg(1).as_long() > 0:
+        return 0, t.arg(1).as_long() - 1
+    if k == z3.Z3_OP_MUL and t.num_args() == 2:
+        for c, x in ((t.arg(0), t.arg(1)), (t.arg(1), t.arg(0))):
+            if z3.is_int_value(c) and c.as_long() >= 0:
+                a = bounds(x, depth + 1)
+                m = c.as_long()
+                return (None if a[0] is None else a[0] * m), (None if a[1] is None else a[1] * m)
+    if k == z3.Z3_OP_IDIV and z3.is_int_value(t.arg(1)) and t.arg(1).as_long() > 0:
+        a = bounds(t.arg(0), depth + 1)
+        m = t.arg(1).as_long()
+        return (None if a[0] is None else a[0] // m), (None if a[1] is None else a[1] // m)
+    if k == z3.Z3_OP_SELECT:
+        return 0, None
+    return None, None
+
+
 def int_and(a, b):
     if isinstance(a, int) and isinstance(b, int):
         return a & b
@@ -367,9 +407,12 @@ def int_or(a, b):
     ta = T(a)
     # cheap simplification when the bits are provably clear
     c = _CTX[0]
-    if cb and c is not None and c.nofork == 0:
+    if cb:
         low = (cb & -cb)
-        if c.is_true(z3.And(ta >= 0, ta < low)):
+        lo_b, hi_b = bounds(simp(ta))
+        if lo_b is not None and hi_b is not None and lo_b >= 0 and hi_b < low:
+            return mk_int(ta + cb)
+        if c is not None and c.nofork == 0 and c.is_true(z3.And(ta >= 0, ta < low)):
             return mk_int(ta + cb)
     return mk_int(ta + cb - T(int_and(a, cb)))
 
@@ -781,21 +824,40 @@ def rope_getitem(r, i):
     return mk_rope("str", [BL([el])])
 
 
+def _decide(cond):
+    """decide a z3 condition on the current path (forks only when both outcomes are feasible)"""
+    c = _CTX[0]
+    cond = simp(cond)
+    if z3.is_true(cond):
+        return True
+    if z3.is_false(cond):
+        return False
+    if c is None:
+        raise OutOfReach("symbolic comparison outside a path context")
+    return c.branch(cond)
+
+
+def _clamp_one(n, v, default):
+    if v is None:
+        return default
+    t = simp(T(v))
+    if _decide(t < 0):
+        t = simp(t + n)
+        if _decide(t < 0):
+            return I(0)
+        return t
+    if _decide(t > n):
+        return n
+    return t
+
+
 def _clamp_bounds(n, lo, hi):
-    """python slice clamping for step 1; returns (lo', hi') z3 terms with 0<=lo'<=hi'<=n"""
-    if lo is None:
-        lo_t = I(0)
-    else:
-        lo_t = T(lo)
-        lo_t = z3.If(lo_t < 0, z3.If(lo_t + n < 0, I(0), lo_t + n), z3.If(lo_t > n, n, lo_t))
-    if hi is None:
-        hi_t = n
-    else:
-        hi_t = T(hi)
-        hi_t = z3.If(hi_t < 0, z3.If(hi_t + n < 0, I(0), hi_t + n), z3.If(hi_t > n, n, hi_t))
-    lo_t = simp(lo_t)
-    hi_t = simp(z3.If(hi_t < lo_t, lo_t, hi_t))
-    return lo_t, hi_t
+    """python slice clamping for step 1; returns (lo', hi') z3 terms with 0<=lo'<=hi'<=n (decided on the path)"""
+    lo_t = _clamp_one(n, lo, I(0))
+    hi_t = _clamp_one(n, hi, n)
+    if _decide(hi_t < lo_t):
+        hi_t = lo_t
+    return simp(lo_t), simp(hi_t)
 
 
 def rope_slice(r, lo, hi):
@@ -807,49 +869,41 @@ def rope_slice(r, lo, hi):
 
 
 def _rope_cut(r, lo_t, hi_t):
-    """sub-rope [lo_t, hi_t) with 0 <= lo_t <= hi_t <= len(r) as z3 terms."""
+    """sub-rope [lo_t, hi_t) with 0 <= lo_t <= hi_t <= len(r) as z3 terms; chunk relations are decided on the path."""
     c = _CTX[0]
     out = []
     off = I(0)
-    chunks = r.chunks
-    for k, ch in enumerate(chunks):
+    lo_t, hi_t = simp(T(lo_t)), simp(T(hi_t))
+    if term_eq(lo_t, hi_t):
+        return mk_rope(r.kind, [])
+    for ch in r.chunks:
         n = ch.length()
         end = simp(off + n)
-        # relative bounds inside this chunk, clamped
-        a = simp(z3.If(lo_t - off < 0, I(0), z3.If(lo_t - off > n, n, lo_t - off)))
-        b = simp(z3.If(hi_t - off < 0, I(0), z3.If(hi_t - off > n, n, hi_t - off)))
-        ca, cb = const_of(a), const_of(b)
-        if ca is not None and cb is not None and cb <= ca:
+        if _decide(hi_t <= off):
+            break
+        if _decide(lo_t >= end):
             off = end
             continue
+        a = I(0) if _decide(lo_t <= off) else simp(lo_t - off)
+        b = n if _decide(hi_t >= end) else simp(hi_t - off)
         if isinstance(ch, BS):
-            out.append(BS(ch.base, simp(ch.lo + a), simp(ch.lo + z3.If(b < a, a, b))))
+            out.append(BS(ch.base, simp(ch.lo + a), simp(ch.lo + b)))
         elif isinstance(ch, BR):
-            out.append(BR(ch.elem, simp(z3.If(b < a, I(0), b - a))))
+            out.append(BR(ch.elem, simp(b - a)))
         elif isinstance(ch, BL):
-            if ca is None or cb is None:
-                if c is None:
-                    raise OutOfReach("symbolic cut of a literal chunk outside a context")
-                if ca is None:
-                    ca = c.concretize(a, 0, len(ch.items), "slice bound")
-                    # re-simplify b under the new path condition
-                if cb is None:
-                    cb = c.concretize(b, 0, len(ch.items), "slice bound")
+            ca, cb = const_of(a), const_of(b)
+            if ca is None:
+                ca = c.concretize(a, 0, len(ch.items), "slice bound")
+            if cb is None:
+                cb = c.concretize(b, 0, len(ch.items), "slice bound")
             if cb > ca:
                 out.append(BL(ch.items[ca:cb]))
         elif isinstance(ch, (BN, BX)):
-            # whole chunk or nothing; partial cuts of opaque chunks are out of reach
-            if c is None:
-                raise OutOfReach("cut of opaque chunk outside a context")
-            whole = z3.And(a == 0, b == n)
-            empty = b <= a
-            if c.is_true(whole):
+            if term_eq(a, I(0)) and term_eq(b, n):
                 out.append(ch)
-            elif c.is_true(empty):
-                pass
-            elif c.branch(whole):
+            elif _decide(z3.And(a == 0, b == n)):
                 out.append(ch)
-            elif c.branch(empty):
+            elif _decide(b <= a):
                 pass
             else:
                 raise OutOfReach(f"partial slice of opaque chunk {ch!r}")
